@@ -16,6 +16,11 @@
 (*        JSON.parse(got) gave.  m = 1 iff got respells to the text 15.12.3   *)
 (*        prescribes, the recogniser reads v from it and back is v; m = 2 iff *)
 (*        the same holds for the specification with the open findings.        *)
+(*   [kind |-> "textmo", id, got, want] got: a text produced on the Go side  *)
+(*        from an exported value (Export + json.Marshal: a Go map has no     *)
+(*        member order); want as for "text".  Verdict m: the index of the    *)
+(*        first wanted text such that got is a JSON text (15.12.1) denoting   *)
+(*        the value that text denotes, up to the order of members; 0 if none. *)
 (* One verdict line per record.                                              *)
 EXTENDS NumText, Json, TLC
 CONSTANT OpenDev
@@ -29,9 +34,16 @@ File == ndJsonDeserialize("trace.ndjson")
 RECURSIVE FirstEq(_, _, _)
 FirstEq(want, s, j) == IF j > Len(want) THEN 0 ELSE IF want[j] = s THEN j ELSE FirstEq(want, s, j + 1)
 
+RECURSIVE FirstEqMO(_, _, _)
+FirstEqMO(want, v, j) ==
+    IF j > Len(want) THEN 0
+    ELSE LET q == J!ParseText(want[j])
+         IN  IF q.ok /\ J!EqModOrder(q.v, v) THEN j ELSE FirstEqMO(want, v, j + 1)
+
 Verdict(ev) ==
     LET nrm == J!Normalise(ev.got)
     IN  CASE ev.kind = "text" -> IF nrm.ok THEN FirstEq(ev.want, nrm.s, 1) ELSE 0
+          [] ev.kind = "textmo" -> (LET p == J!ParseText(ev.got) IN IF p.ok THEN FirstEqMO(ev.want, p.v, 1) ELSE 0)
           [] ev.kind = "num" ->
                 (LET p == J!ParseText(ev.got)
                      txt == IF IsFinite(ev.n) THEN NumToStr(ev.n) ELSE J!S_lit_null
